@@ -428,6 +428,14 @@ func (e *env) compact(force bool) {
 	}
 	after, layAfter := e.observe()
 	changed := ran && fmt.Sprint(layAfter.FileLevel) != fmt.Sprint(layBefore.FileLevel)
+	// a job that ran (the guard found work: level-0 files at or above the threshold) and reported no error
+	// has moved every level-0 file up - merged, or relinked when it is a single file without an overlapping
+	// level-1 file. Judged on "ran", not on "the files changed": a job that silently does nothing must not
+	// pass as "nothing to do".
+	if ran && layBefore.Level0 > 0 && layAfter.Level0 != 0 {
+		e.fatalf("the compaction job ran without an error but %d file(s) are still in level 0 (before: L0=%d L1=%d, after: L1=%d)",
+			layAfter.Level0, layBefore.Level0, layBefore.Level1, layAfter.Level1)
+	}
 	if err := compareStates(before, after, e.sc.typeOf, !changed, "reader before compaction", "reader after compaction"); err != nil {
 		e.fatalf("compaction changed what the reader observes:\n  %v", err)
 	}
